@@ -90,6 +90,19 @@ impl<B: NetworkBehaviour> Net<B> {
         idx
     }
 
+    /// a node whose transport upgrades every connection in the dialer role (see `build_transport_reversed`)
+    pub fn add_node_reversed(&mut self, key: Keypair, behaviour: impl FnOnce(&Keypair, SimExec) -> B, cfg: impl FnOnce(Config) -> Config) -> usize {
+        let idx = self.nodes.len();
+        let tasks = TaskSet::new(&self.hub);
+        let peer = key.public().to_peer_id();
+        let transport = crate::transport::build_transport_reversed(idx, &self.board, &key);
+        let config = cfg(Config::with_executor(tasks.exec()));
+        let swarm = Swarm::new(transport, behaviour(&key, tasks.exec()), peer, config);
+        let (flag, waker) = NetWaker::new(&self.hub);
+        self.nodes.push(Node { swarm: Some(swarm), peer, key, tasks, flag, waker, events: 0 });
+        idx
+    }
+
     pub fn swarm(&mut self, i: usize) -> &mut Swarm<B> {
         self.nodes[i].swarm()
     }
